@@ -100,6 +100,19 @@ def main():
         import shutil
 
         shutil.rmtree(tmp, ignore_errors=True)
+    # the same definition generated a second time in this interpreter (state carried between
+    # generations would show here): normalise the only legitimately different line, the #include
+    def _norm(text):
+        return "\n".join(ln for ln in text.split("\n") if not ln.startswith("#include <"))
+
+    gen2 = cpp._generate_ekf_function_bodies(
+        header_location="generated/gen.h", namespace="gen", state_model=b.ui_model,
+        process_noise=b.process_noise, sensor_models=b.sensor_models, sensor_noises=b.sensor_noises,
+        calibration_map=b.calibration_map, config=dict(cfg))
+    first_src = "\n".join(cpp.source_from_ast(generator=gen))
+    d["cpp_ekf_source_again_same_generator"] = sha(first_src)
+    d["cpp_ekf_source_second_generator_source_first"] = sha("\n".join(cpp.source_from_ast(generator=gen2)))
+    d["cpp_ekf_header_second_generator"] = sha("\n".join(cpp.header_from_ast(generator=gen2)))
     # Python variable layouts
     m = python.compile(b.ui_model, b.calibration_map or None, config=dict(cfg))
     d["py_model_arglist"] = sha([str(s) for s in m.arglist])
